@@ -36,6 +36,8 @@ CLAIMED = {
             _LV + "C11: histories over a pool of mutually confusable types are enumerated natively (stated as enumeration), the datum is symbolic.", _NOTE, "DESIGN.md 5/C11"),
     "C15": ("differential loaders of equivalent spellings on a symbolic datum (CrossHair + z3); structural congruence by labelled native enumeration",
             _LV + "C15: equal/hash-equal/idempotent normal forms inside groups of equivalent hints, unequal across groups (enumeration, labelled), behavioural equivalence on symbolic data.", _NOTE, "DESIGN.md 5/C15"),
+    "C18": ("CrossHair symbolic execution of the real enum/flag loaders and dumpers: flag value and candidate representation symbolic, classes x providers x option cube enumerated natively",
+            _LV + "C18: load(dump(m)) is m for every member/flag combination; loaders accept exactly the representations and reject the rest with LoadError; creation succeeds for every non-excluded class.", _NOTE, "DESIGN.md 5/C18"),
     "C20": ("CrossHair symbolic execution of real combinators: deep snapshot of argument, two calls, identity-disjointness of built containers",
             _LV + "C20: argument untouched, repeatable, fresh containers.", _NOTE, "DESIGN.md 5/C20"),
 }
